@@ -50,12 +50,13 @@ func registerSync(e *Engine) {
 	// sync.Mutex: field 0 = state (0 free, 1 locked)
 	in["(*sync.Mutex).Lock"] = func(r *Run, g *Goroutine, fv *FuncV, a []Value, retTo func(Value)) (Value, bool) {
 		p := a[0].(PtrV)
-		return block(r, g, "sync.Mutex.Lock", func() bool { return r.fieldInt(p, 0) == 0 }, func() Value { r.setFieldInt(p, 1, 0); return nil }, retTo)
+		return block(r, g, "sync.Mutex.Lock", func() bool { return r.fieldInt(p, 0) == 0 }, func() Value { r.setFieldInt(p, 1, 0); r.raceAcquire(g, p.obj); return nil }, retTo)
 	}
 	in["(*sync.Mutex).TryLock"] = func(r *Run, g *Goroutine, fv *FuncV, a []Value, retTo func(Value)) (Value, bool) {
 		p := a[0].(PtrV)
 		if r.fieldInt(p, 0) == 0 {
 			r.setFieldInt(p, 1, 0)
+			r.raceAcquire(g, p.obj)
 			return r.ctx.Bool(true), true
 		}
 		return r.ctx.Bool(false), true
@@ -65,6 +66,7 @@ func registerSync(e *Engine) {
 		if r.fieldInt(p, 0) == 0 {
 			panic(goPanic{kind: "exit", msg: "fatal error: sync: unlock of unlocked mutex"})
 		}
+		r.raceRelease(g, p.obj)
 		r.setFieldInt(p, 0, 0)
 		r.schedPoint("unlock")
 		return nil, true
@@ -77,13 +79,19 @@ func registerSync(e *Engine) {
 	in["(*sync.RWMutex).Lock"] = func(r *Run, g *Goroutine, fv *FuncV, a []Value, retTo func(Value)) (Value, bool) {
 		p := a[0].(PtrV)
 		return block(r, g, "sync.RWMutex.Lock", func() bool { return rwWriter(r, p) == 0 && rwReaders(r, p) == 0 },
-			func() Value { r.setFieldInt(p, 1, 0, 0); return nil }, retTo)
+			func() Value {
+				r.setFieldInt(p, 1, 0, 0)
+				r.raceAcquire(g, p.obj)
+				r.raceAcquire(g, rkey{p.obj})
+				return nil
+			}, retTo)
 	}
 	in["(*sync.RWMutex).Unlock"] = func(r *Run, g *Goroutine, fv *FuncV, a []Value, retTo func(Value)) (Value, bool) {
 		p := a[0].(PtrV)
 		if rwWriter(r, p) == 0 {
 			panic(goPanic{kind: "exit", msg: "fatal error: sync: Unlock of unlocked RWMutex"})
 		}
+		r.raceRelease(g, p.obj)
 		r.setFieldInt(p, 0, 0, 0)
 		r.schedPoint("unlock")
 		return nil, true
@@ -91,7 +99,7 @@ func registerSync(e *Engine) {
 	in["(*sync.RWMutex).RLock"] = func(r *Run, g *Goroutine, fv *FuncV, a []Value, retTo func(Value)) (Value, bool) {
 		p := a[0].(PtrV)
 		return block(r, g, "sync.RWMutex.RLock", func() bool { return rwWriter(r, p) == 0 },
-			func() Value { rwSetReaders(r, p, rwReaders(r, p)+1); return nil }, retTo)
+			func() Value { rwSetReaders(r, p, rwReaders(r, p)+1); r.raceAcquire(g, p.obj); return nil }, retTo)
 	}
 	in["(*sync.RWMutex).RUnlock"] = func(r *Run, g *Goroutine, fv *FuncV, a []Value, retTo func(Value)) (Value, bool) {
 		p := a[0].(PtrV)
@@ -99,6 +107,7 @@ func registerSync(e *Engine) {
 			panic(goPanic{kind: "exit", msg: "fatal error: sync: RUnlock of unlocked RWMutex"})
 		}
 		rwSetReaders(r, p, rwReaders(r, p)-1)
+		r.raceRelease(g, rkey{p.obj})
 		r.schedPoint("runlock")
 		return nil, true
 	}
@@ -121,22 +130,25 @@ func registerSync(e *Engine) {
 			panic(goPanic{kind: "explicit", msg: "sync: negative WaitGroup counter"})
 		}
 		wgSet(r, p, n)
+		r.raceRelease(g, p.obj)
 		r.schedPoint("wg.Done")
 		return nil, true
 	}
 	in["(*sync.WaitGroup).Wait"] = func(r *Run, g *Goroutine, fv *FuncV, a []Value, retTo func(Value)) (Value, bool) {
 		p := a[0].(PtrV)
-		return block(r, g, "sync.WaitGroup.Wait", func() bool { return wgGet(r, p) == 0 }, func() Value { return nil }, retTo)
+		return block(r, g, "sync.WaitGroup.Wait", func() bool { return wgGet(r, p) == 0 }, func() Value { r.raceAcquire(g, p.obj); return nil }, retTo)
 	}
 	// sync.Once: done atomic.Uint32 (field 0: {_ noCopy; v uint32}); m Mutex
 	in["(*sync.Once).Do"] = func(r *Run, g *Goroutine, fv *FuncV, a []Value, retTo func(Value)) (Value, bool) {
 		p := a[0].(PtrV)
 		if r.onceDone(p) {
+			r.raceAcquire(g, p.obj)
 			return nil, true
 		}
 		r.onceSet(p)
 		f := a[1].(*FuncV)
 		r.invoke(g, f, nil, func(Value) {
+			r.raceRelease(g, p.obj)
 			if retTo != nil {
 				retTo(nil)
 			}
@@ -148,13 +160,17 @@ func registerSync(e *Engine) {
 	for _, ty := range []string{"Int32", "Int64", "Uint32", "Uint64", "Uintptr"} {
 		ty := ty
 		in["sync/atomic.Load"+ty] = func(r *Run, g *Goroutine, fv *FuncV, a []Value, retTo func(Value)) (Value, bool) {
+			r.raceAcquire(g, akey{keyOf(a[0].(PtrV))})
 			return r.load(a[0].(PtrV)), true
 		}
 		in["sync/atomic.Store"+ty] = func(r *Run, g *Goroutine, fv *FuncV, a []Value, retTo func(Value)) (Value, bool) {
+			r.raceRelease(g, akey{keyOf(a[0].(PtrV))})
 			r.store(a[0].(PtrV), a[1])
 			return nil, true
 		}
 		in["sync/atomic.Swap"+ty] = func(r *Run, g *Goroutine, fv *FuncV, a []Value, retTo func(Value)) (Value, bool) {
+			r.raceAcquire(g, akey{keyOf(a[0].(PtrV))})
+			r.raceRelease(g, akey{keyOf(a[0].(PtrV))})
 			old := r.load(a[0].(PtrV))
 			r.store(a[0].(PtrV), a[1])
 			return old, true
@@ -214,5 +230,8 @@ func (r *Run) firstScalar(p PtrV) int64 {
 	}
 	return signExtend(t.CV, t.Sort.W)
 }
+
+type rkey struct{ o *Object } // reader-release clock of an RWMutex
+type akey struct{ k slotKey } // release clock of an atomically accessed word
 
 var _ = types.Typ
